@@ -1,7 +1,7 @@
 """C13 — prayer times vary smoothly from one day to the next (engine M; partial: no calendar- or wrap-induced jumps)."""
 import datetime
 from ..common import *
-from ..obl import base, jd, transit, wiring
+from ..obl import base, jd, transit, wiring, rounding
 from .. import replay
 from . import c01
 
@@ -12,25 +12,35 @@ EXPLANATION = ("The code-level causes of day-to-day jumps are decided by the sol
                "bounds (5/8/12 s) additionally depend on the smoothness of the real ephemeris, which is outside the claim.")
 
 
+LIMITS = {"Dhuhr": 5, "Shurooq": 8, "Maghrib": 8, "Asr": 8, "Fajr": 12, "Isha": 12}
+
+
 def second_diffs():
-    """Native judge used only to confirm candidates: Dhuhr second differences over consecutive dates (unrounded)."""
+    """Native smoothness sweep (sampling; the solver part decides the code-level causes of jumps, the curvature of the real ephemeris is an
+    assumption): second differences (5/8/12 s + 2 s truncation) and day-to-day change (< 240 s) of every conventional time over runs of
+    consecutive dates that contain month/year/century ends, leap days, the March equinox and the J2000.0 epoch of the series."""
     out = []
-    for (lat, lon, gmt) in ((30.0, 31.0, 2.0), (39.0, -77.0, -5.0), (-33.9, 151.2, 10.0)):
-        for y in (1600, 2023, 2024, 2399):
-            for (mo, d0, n) in ((3, 10, 24), (12, 24, 14), (2, 22, 12)):
-                start = datetime.date(y, mo, d0)
-                dates = [(start + datetime.timedelta(days=k)).isoformat() for k in range(n) if (start + datetime.timedelta(days=k)).year <= 2399]
-                cases = [{"api": "prayer_times_dt", "lat": lat, "lon": lon, "gmt": gmt, "date": d, "params": {"method": "Isna", "round": "None", "ext": "None"}}
-                         for d in dates]
-                rs = replay.run(cases)
-                t = [r["times"]["Dhuhr"]["secs"] if "times" in r and r["times"]["Dhuhr"] else None for r in rs]
+    runs = [(y, mo, d0, n) for y in (1600, 2023, 2024, 2399) for (mo, d0, n) in ((3, 10, 24), (12, 24, 14), (2, 22, 12))] + \
+           [(y, 12, 24, 14) for y in (1699, 1799, 1899, 1999, 2099, 2199)] + [(2000, 2, 22, 12), (1900, 2, 22, 12), (2100, 2, 22, 12), (1999, 6, 25, 12)]
+    for (lat, lon, gmt) in ((30.0, 31.0, 2.0), (39.0, -77.0, -5.0), (-33.9, 151.2, 10.0), (38.0, 178.0, 12.0)):
+        for (y, mo, d0, n) in runs:
+            start = datetime.date(y, mo, d0)
+            dates = [(start + datetime.timedelta(days=k)).isoformat() for k in range(n) if (start + datetime.timedelta(days=k)).year <= 2399]
+            cases = [{"api": "prayer_times_dt", "lat": lat, "lon": lon, "gmt": gmt, "date": d, "params": {"method": "Isna", "round": "None", "ext": "None"}}
+                     for d in dates]
+            rs = replay.run(cases)
+            for nm, lim in LIMITS.items():
+                t = [r["times"][nm]["secs"] if "times" in r and r["times"].get(nm) else None for r in rs]
                 for k in range(1, len(t) - 1):
                     if None in (t[k - 1], t[k], t[k + 1]):
                         continue
-                    dd = t[k + 1] - 2 * t[k] + t[k - 1]
-                    if abs(dd) > 6:      # 5 s + 1 s truncation
-                        out.append(("dhuhr-second-difference", "Dhuhr second difference %+d s at %s (lat %s lon %s): %s" % (dd, dates[k], lat, lon, t[k - 1:k + 2]),
-                                    cases[k - 1:k + 2], {"secs": t[k - 1:k + 2]}))
+                    w = lambda a, b: (a - b + 43200) % 86400 - 43200
+                    d1, d2 = w(t[k], t[k - 1]), w(t[k + 1], t[k])
+                    dd = d2 - d1
+                    if abs(dd) > lim + 2 or abs(d2) >= 240:
+                        key = "dhuhr-second-difference" if nm == "Dhuhr" else "second-difference"
+                        out.append((key, "%s: second difference %+d s, day-to-day change %+d s at %s (lat %s lon %s gmt %s): %s"
+                                    % (nm, dd, d2, dates[k], lat, lon, gmt, t[k - 1:k + 2]), cases[k - 1:k + 2], {"secs": t[k - 1:k + 2], "prayer": nm}))
     return out
 
 
@@ -38,8 +48,12 @@ def run(rep):
     rep.bounds = {"dates": "every consecutive pair 1583..9999", "RA triple": "as in C01", "tolerance": "Dhuhr within 10 s of the interpolated transit"}
     rep.assumptions += ["the 5/8/12 s second-difference bounds and the 4 min/day bound for the trig-defined times depend on the curvature of "
                         "the real ephemeris (EPH smoothness) and are outside the claim; the claim is the absence of calendar/wrap-induced jumps"]
-    results = base.run_obligations(rep, [(jd.jd_gmt_shift, None), (jd.jd_formula, (1583, 9999)), (transit.ra_deltas, None), (transit.dhuhr_transit, None), (wiring.astro_day_wiring, None)])
-    if any((x["cands"] or x["inconclusive"]) for x in results):
+    results = base.run_obligations(rep, [(jd.jd_gmt_shift, None), (jd.jd_formula, (1583, 9999)), (transit.ra_deltas, None), (transit.dhuhr_transit, None), (wiring.astro_day_wiring, None)] +
+                                   [(rounding.rounding, ("None", k, -50, 75, 1500)) for k in rounding.PRAYERS])
+    if any((x["cands"] or x["inconclusive"]) for x in results if x["name"].startswith("hour_to_time")):
+        from . import c11
+        c11.confirm_rounding(rep, results)      # the clock conversion of unrounded seconds is truncation (no jump of its own)
+    if True:     # the smoothness sweep always runs: it is the only thing that sees the ephemeris itself
         found = {}
         for key, desc, case, obs in second_diffs():
             found.setdefault(key, []).append((desc, case, obs))
@@ -47,15 +61,22 @@ def run(rep):
             rep.violation(key, items[0][0] + " (+%d more)" % (len(items) - 1), items[0][1], items[0][2])
         if not found:
             c01.confirm_jd(rep, results)
-        if not found and not rep.violations:
+        if not found and not rep.violations and (any((x["cands"] or x["inconclusive"]) for x in results) or rep.tier == "thorough"):
             c01.confirm(rep, [x for x in results if not x["name"].startswith("JulianDay")])
+    from . import ephsweep
+    ephsweep.sweep(rep, {"dhuhr"})
     from . import policyprop as _pp
     _pp.purity_native(rep)
     rep.samples = [{"obligation": o["name"], "status": o["status"], "paths": o.get("paths")} for o in rep.obligations]
 
 
 def judge_replay(case, results):
-    t = [r["times"]["Dhuhr"]["secs"] for r in results if "times" in r and r["times"].get("Dhuhr")]
-    if len(t) == 3 and abs(t[2] - 2 * t[1] + t[0]) > 6:
-        return True
+    if len(results) == 3 and all("times" in r for r in results):
+        for nm, lim in LIMITS.items():
+            t = [r["times"][nm]["secs"] for r in results if r["times"].get(nm)]
+            if len(t) == 3:
+                w = lambda a, b: (a - b + 43200) % 86400 - 43200
+                d1, d2 = w(t[1], t[0]), w(t[2], t[1])
+                if abs(d2 - d1) > lim + 2 or abs(d2) >= 240:
+                    return True
     return c01.judge_replay(case, results)
